@@ -149,6 +149,8 @@ struct Env {
         // CPU-time limit for the next library calls (0 = none). When it expires inside a call the call is abandoned: with
         // cancel_is_benign the run ends without a verdict (the harness cancelled a long computation on purpose, nothing is observed
         // afterwards); otherwise it is reported as a call that does not return.
+        // asynchronous-signal fault: every call of the run is hit by one simulated signal (see cpu.cc)
+        bool signal_faults = false;
         double call_cpu_limit_s = 0;
         bool cancel_is_benign = false;
         // when set, calls of isal_* entry points that have a deprecated twin with the same signature go to the twin instead
